@@ -643,6 +643,16 @@ def describe_assignment_target(
             ):
                 obj = stack.pop()
                 stack.append(f"{obj}.{insn.argval}")
+            elif insn.opname == "LOAD_SUPER_ATTR":
+                # 3.12+: super().name, or super(cls, obj).name if bit 1 of the
+                # oparg is set, as a single instruction on (super, cls, obj)
+                obj = stack.pop()
+                cls = stack.pop()
+                func = stack.pop()
+                if insn.arg is not None and insn.arg & 2:
+                    stack.append(f"{func}({cls}, {obj}).{insn.argval}")
+                else:
+                    stack.append(f"{func}().{insn.argval}")
             elif insn.opname == "LOAD_CONST":
                 if insn.argval is Ellipsis:
                     stack.append("...")
